@@ -29,5 +29,7 @@ Theorem C19_no_state_shared_between_copies : no_aliasing_members = true.
 Proof. vm_compute. reflexivity. Qed.
 Print Assumptions C19_no_state_shared_between_copies.
 
-Example C19_inventory_nonempty : (List.length gen_statics =? 1) = true.
-Proof. vm_compute. reflexivity. Qed.
+(* non-vacuity: the obligation discriminates - a mutable object with static storage duration would fail it *)
+Example C19_inventory_discriminates :
+  static_immutable ("decoder.o", "scratch", "const")%string = true /\ static_immutable ("decoder.o", "scratch", "mutable")%string = false.
+Proof. vm_compute. split; reflexivity. Qed.
